@@ -66,6 +66,7 @@ type equivChecker struct {
 	inprog      map[declKey]bool
 	current     declKey
 	bound       int
+	intMerge    bool
 	lock        bool            // the comparison under way cuts data-dependent loops in lockstep
 	lockLoops   map[string]bool // which loops
 	symA, symB  map[string]bool // data-dependent loops seen in the bounded runs of the two versions
@@ -297,7 +298,7 @@ func (c *equivChecker) check1(k declKey) (res *equivResult) {
 			lr.Detail = fmt.Sprintf("with %d loop(s) cut in lockstep: %s", len(c.lockLoops), lr.Detail)
 		}
 		r = lr
-		if r.Status == "bounded-equivalent" && r.Bound < 3 {
+		if r.Status == "bounded-equivalent" && r.Bound < 2 {
 			r = &equivResult{Status: "unavailable", Detail: fmt.Sprintf("loops that changed shape were only followed for %d iteration(s)", r.Bound), Pairs: r.Pairs, Queries: r.Queries}
 		}
 	}
@@ -337,7 +338,23 @@ func (c *equivChecker) check1(k declKey) (res *equivResult) {
 	return r
 }
 
-func (c *equivChecker) compare(k declKey, fnNew, fnBase *ssa.Function, merge bool) (res *equivResult) {
+// compare runs the comparison with conditional integers merged like any other value; when the
+// engine then meets a symbolic index or shift it cannot model, it runs again keeping integers
+// concrete (a branch that decides an integer is explored as two paths).
+func (c *equivChecker) compare(k declKey, fnNew, fnBase *ssa.Function, merge bool) *equivResult {
+	c.intMerge = merge
+	r := c.compare1(k, fnNew, fnBase, merge)
+	if merge && r.Status == "unavailable" && strings.HasPrefix(r.Detail, "engine:") && !strings.Contains(r.Detail, "path limit") && !strings.Contains(r.Detail, "time budget") {
+		c.intMerge = false
+		r2 := c.compare1(k, fnNew, fnBase, merge)
+		if !(r2.Status == "unavailable" && strings.HasPrefix(r2.Detail, "engine:")) || strings.Contains(r2.Detail, "path limit") || strings.Contains(r2.Detail, "time budget") {
+			return r2
+		}
+	}
+	return r
+}
+
+func (c *equivChecker) compare1(k declKey, fnNew, fnBase *ssa.Function, merge bool) (res *equivResult) {
 	defer func() {
 		if rec := recover(); rec != nil {
 			if ee, ok := rec.(engineErr); ok {
@@ -380,10 +397,10 @@ func (c *equivChecker) compare(k declKey, fnNew, fnBase *ssa.Function, merge boo
 	}
 	x.safety = false
 	x.splitGoals = true
-	x.maxPaths = 4000
+	x.maxPaths = 20000
 	x.opaque = map[string]bool{}
 	x.noModular = true
-	x.noIntMerge = true
+	x.noIntMerge = !c.intMerge
 	x.boundK = c.bound
 	x.boundRec = equivRecursion
 	x.baseRun = false
@@ -484,6 +501,15 @@ func (c *equivChecker) compare(k declKey, fnNew, fnBase *ssa.Function, merge boo
 	entA := x.lockEntries
 	outsB, hitsB := run(fnBase, true)
 	entB := x.lockEntries
+	if os.Getenv("VERIF_EQUIV_DEBUG") != "" {
+		fmt.Fprintf(os.Stderr, "=== %s lock=%v bound=%d: %d / %d outcomes, %d / %d bound hits, %d / %d loop entries\n", k, c.lock, c.bound, len(outsA), len(outsB), hitsA, hitsB, len(entA), len(entB))
+		for i, o := range outsA {
+			fmt.Fprintf(os.Stderr, "  A%d kind=%d msg=%s pc=%d\n", i, o.kind, o.msg, len(o.st.pc))
+		}
+		for i, o := range outsB {
+			fmt.Fprintf(os.Stderr, "  B%d kind=%d msg=%s pc=%d\n", i, o.kind, o.msg, len(o.st.pc))
+		}
+	}
 	if len(outsA) == 0 || len(outsB) == 0 {
 		return &equivResult{Status: "unavailable", Detail: "no path completes within the bound"}
 	}
@@ -525,6 +551,9 @@ func (c *equivChecker) compare(k declKey, fnNew, fnBase *ssa.Function, merge boo
 				}
 			}
 			if contra {
+				if os.Getenv("VERIF_EQUIV_DEBUG") == "2" {
+					fmt.Fprintf(os.Stderr, "  pair %d/%d skipped: contradictory path conditions\n", ia, ib)
+				}
 				continue
 			}
 			res.Pairs++
@@ -579,8 +608,48 @@ func (c *equivChecker) compare(k declKey, fnNew, fnBase *ssa.Function, merge boo
 					cmp.entry[cl] = true
 					cs = append(cs, cmp.eq(va, vb))
 				}
-				// external events
-				la, lb := a.st.log[log0:], b.st.log[log0:]
+				// external events; calls of callees that write nothing are compared callee by
+				// callee (their order among other events does not matter), everything else in order
+				split := func(l []Event) (ord []Event, pure map[string][]Event) {
+					pure = map[string][]Event{}
+					for _, e := range l {
+						if strings.HasPrefix(e.kind, "pure:") {
+							pure[e.kind] = append(pure[e.kind], e)
+						} else {
+							ord = append(ord, e)
+						}
+					}
+					return
+				}
+				la, pa := split(a.st.log[log0:])
+				lb, pb := split(b.st.log[log0:])
+				var pnames []string
+				for n := range pa {
+					pnames = append(pnames, n)
+				}
+				for n := range pb {
+					if _, ok := pa[n]; !ok {
+						pnames = append(pnames, n)
+					}
+				}
+				sort.Strings(pnames)
+				for _, n := range pnames {
+					ea, eb := pa[n], pb[n]
+					if len(ea) != len(eb) {
+						cs = append(cs, tFalse)
+						cmp.why = append(cmp.why, fmt.Sprintf("%d calls of %s against %d", len(ea), n, len(eb)))
+						continue
+					}
+					for i := range ea {
+						if len(ea[i].args) != len(eb[i].args) {
+							cs = append(cs, tFalse)
+							continue
+						}
+						for j := range ea[i].args {
+							cs = append(cs, cmp.eq(ea[i].args[j], eb[i].args[j]))
+						}
+					}
+				}
 				if len(la) != len(lb) {
 					cs = append(cs, tFalse)
 					cmp.why = append(cmp.why, fmt.Sprintf("%d external events against %d", len(la), len(lb)))
@@ -609,6 +678,24 @@ func (c *equivChecker) compare(k declKey, fnNew, fnBase *ssa.Function, merge boo
 						res.closures = map[string]bool{}
 					}
 					res.closures[sfx] = true
+				}
+			}
+			if os.Getenv("VERIF_EQUIV_DEBUG") == "2" {
+				fmt.Fprintf(os.Stderr, "  pair %d/%d goal trivially true: %v\n", ia, ib, goal.isTrue())
+				if ia == 5 && ib == 17 {
+					for i := range a.vals {
+						fmt.Fprintf(os.Stderr, "    A val %d: %s\n    B val %d: %s\n", i, valueString(a.vals[i]), i, valueString(b.vals[i]))
+						if ifc, ok := a.vals[i].(*Iface); ok {
+							if p, ok := ifc.val.(*Ptr); ok && p.cell != nil {
+								fmt.Fprintf(os.Stderr, "    A content: %s\n", valueString(a.st.store[p.cell]))
+							}
+						}
+						if ifc, ok := b.vals[i].(*Iface); ok {
+							if p, ok := ifc.val.(*Ptr); ok && p.cell != nil {
+								fmt.Fprintf(os.Stderr, "    B content: %s\n", valueString(b.st.store[p.cell]))
+							}
+						}
+					}
 				}
 			}
 			if goal.isTrue() {
@@ -898,6 +985,11 @@ func (c *eqCmp) eq(a, b Value) *Term {
 		}
 	case *Iface:
 		switch vb := b.(type) {
+		case *Opaque:
+			if vb.nilT != nil {
+				return c.eq(b, a)
+			}
+			return c.veq(a, b)
 		case *Iface:
 			if va.dyn == nil || vb.dyn == nil {
 				return mkBool(va.dyn == nil && vb.dyn == nil)
@@ -919,6 +1011,12 @@ func (c *eqCmp) eq(a, b Value) *Term {
 			}
 		}
 	case *Opaque:
+		if ib, ok := b.(*Iface); ok && va.nilT != nil {
+			if ib.dyn == nil {
+				return va.nilT // an error of unknown nil-ness against nil
+			}
+			return c.fail("an unknown error value against a concrete one")
+		}
 		if vb, ok := b.(*Opaque); ok {
 			if va.tag != vb.tag || va.nil != vb.nil {
 				return tFalse
@@ -1089,7 +1187,7 @@ const (
 )
 
 func (c *equivChecker) simple(fn *ssa.Function) bool {
-	if len(fn.Blocks) > 10 || len(c.eng.x.loops(fn)) > 0 {
+	if len(fn.Blocks) > 3 || len(c.eng.x.loops(fn)) > 0 {
 		return false
 	}
 	for _, b := range fn.Blocks {
@@ -1259,7 +1357,7 @@ func (x *Exec) havocReach(st *State, v Value, name string, depth int, seen map[*
 			st.wlog = append(st.wlog, t.cell.id)
 			return
 		case *Fwd:
-			x.havocReach(st, oc.to, name, depth-1, seen)
+			x.havocReach(st, oc.to, name+".f", depth-1, seen)
 			return
 		case *SymMap:
 			return
@@ -1268,7 +1366,7 @@ func (x *Exec) havocReach(st *State, v Value, name string, depth int, seen map[*
 		if !ok {
 			return
 		}
-		x.havocReach(st, sub, name, depth-1, seen)
+		x.havocReach(st, sub, name+".d", depth-1, seen) // what it points to gets names of its own
 		var pt types.Type
 		if t.cell.typ != nil && len(t.path) == 0 {
 			pt = t.cell.typ
@@ -1292,7 +1390,7 @@ func (x *Exec) havocReach(st *State, v Value, name string, depth int, seen map[*
 		}
 		if tu, ok := old.(*Tuple); ok {
 			for i := range tu.el {
-				x.havocReach(st, tu.el[i], fmt.Sprintf("%s.%d", name, i), depth-1, seen)
+				x.havocReach(st, tu.el[i], fmt.Sprintf("%s.e%d", name, i), depth-1, seen)
 			}
 		}
 		st.store[t.cell] = x.havocLike(st, st.store[t.cell], nil, name+"$arr")
@@ -1308,12 +1406,117 @@ func (x *Exec) havocReach(st *State, v Value, name string, depth int, seen map[*
 	}
 }
 
+// flattenSeen: the terms a callee's result can depend on, from the snapshots of its arguments
+// (object identities are left out: only contents). False when something is not a term
+// (a symbolic array, an abstract shape, a function value).
+func flattenSeen(v Value, out *[]*Term) bool {
+	switch t := v.(type) {
+	case nil:
+		return true
+	case *Term:
+		*out = append(*out, t)
+		return true
+	case *Tuple:
+		if t.typ == nil && len(t.el) == 2 {
+			// a snapshot pair (pointer or slice, what it holds): the contents stand for the object
+			switch h := t.el[0].(type) {
+			case *Ptr:
+				if h.sym != nil {
+					*out = append(*out, h.sym)
+				}
+				return flattenSeen(t.el[1], out)
+			case *SliceV:
+				*out = append(*out, h.len)
+				return flattenSeen(t.el[1], out)
+			}
+		}
+		for _, e := range t.el {
+			if !flattenSeen(e, out) {
+				return false
+			}
+		}
+		return true
+	case *Ptr:
+		if t.cell == nil {
+			*out = append(*out, mkInt(0))
+			return true
+		}
+		return false // an object whose contents the snapshot could not read
+	case *SliceV:
+		if t.cell == nil {
+			*out = append(*out, mkInt(0))
+			return true
+		}
+		return false
+	case *Str:
+		if t.sym != nil {
+			*out = append(*out, t.sym)
+			return true
+		}
+		return false
+	case *Iface:
+		if t.dyn == nil {
+			*out = append(*out, mkInt(0))
+			return true
+		}
+		return flattenSeen(t.val, out)
+	}
+	return false
+}
+
 func (x *Exec) abstractCall(st *State, name string, fn *ssa.Function, args []Value, impure bool) []Out {
 	snap := make([]Value, len(args))
 	for i, a := range args {
 		snap[i] = x.deepSnap(st, a, 6, map[*Cell]bool{})
 	}
-	st.log = append(st.log, Event{kind: name, args: snap})
+	if !impure {
+		// a callee that writes nothing visible and sees only terms: its results are uninterpreted
+		// functions of what it sees - however often and in whatever order it is called
+		var flat []*Term
+		ok := true
+		for _, sv := range snap {
+			if !flattenSeen(sv, &flat) {
+				ok = false
+				break
+			}
+		}
+		res := fn.Signature.Results()
+		for i := 0; ok && i < res.Len(); i++ {
+			if _, isPtr := res.At(i).Type().Underlying().(*types.Pointer); isPtr || isErrorType(res.At(i).Type()) || foreignType(res.At(i).Type()) {
+				ok = false
+			}
+			switch res.At(i).Type().Underlying().(type) {
+			case *types.Slice, *types.Map, *types.Interface, *types.Signature, *types.Chan:
+				ok = false
+			}
+		}
+		if ok {
+			vals := make([]Value, res.Len())
+			func() {
+				defer func() {
+					if r := recover(); r != nil {
+						if _, isE := r.(engineErr); isE {
+							ok = false
+							return
+						}
+						panic(r)
+					}
+				}()
+				for i := 0; i < res.Len(); i++ {
+					vals[i] = x.ufResult(st, fmt.Sprintf("%s#%d", sanitize(name), i), res.At(i).Type(), flat)
+				}
+			}()
+			if ok {
+				return []Out{{st: st, vals: vals}}
+			}
+		}
+	}
+	if impure {
+		st.log = append(st.log, Event{kind: name, args: snap})
+	} else {
+		// a callee that writes nothing: its calls are compared per callee, not in program order
+		st.log = append(st.log, Event{kind: "pure:" + name, args: snap})
+	}
 	st.version++
 	if impure {
 		seen := map[*Cell]bool{}
